@@ -3,7 +3,7 @@ from harness import gen
 from props.c07 import make_search, denote, SpecError
 from props.c04 import SIMPLE
 
-NAMES = ['a', 'x', 'a-b', 'a.b', 'a_b', 'a+b', 'y', 'ophelia', 'main', 'n1', 'hamlet2', 'X', '~tmp', '\xe9lan', 'zz~']
+NAMES = ['a', 'x', 'a-b', 'a.b', 'a_b', 'a+b', 'y', 'ophelia', 'main', 'n1', 'hamlet2', 'X', '~tmp', '\xe9lan', 'zz~', 'n9', 'n10', 'a-9', 'a-10']
 
 def universe(rng, vocab, kind=None, size=None):
     """A list of sid strings: hierarchies with ancestors, leaf-only, with near-miss / untyped / duplicate entries."""
